@@ -249,6 +249,9 @@ COMP = ch.IOComponent(
     gen_arg=lambda cfg, m, rng, tr: None if no_arg(cfg) else rng.randrange(1 << cfg["w"]),
     gen_in=gen_in, tracker=Tracker, post=post, module=__name__, has_ghost=True,
     in_phase=lambda cfg, rng: {"p": rng.choice([0.2, 0.5, 0.8, 1.0])},
+    # a second caller for the exposed method of the transformers (not for NonexclusiveWrapper, whose method is
+    # documented nonexclusive, nor for MethodFilter(use_condition=True), whose method is single_caller)
+    shadow=lambda cfg: [] if (cfg["kind"] == "nonexcl" or (cfg["kind"] == "filter" and cfg.get("mode") == "cond")) else methods(cfg),
 )
 
 
